@@ -141,10 +141,14 @@ class _EventQueue:
         # The entries get sequence numbers of this queue: the other queue
         # counted on its own, and its numbers say nothing about the order
         # in which events were fired here and there.
+        # (The interrupted batch was queued before anything its handlers
+        # have fired since: it joins the batch of this queue, not the
+        # events waiting for the next pass.)
         while other_queue._priority_queue:
             priority, _count, item = heappop(other_queue._priority_queue)
             self._counter += 1
-            self._queue.append((priority, self._counter, item))
+            heappush(self._priority_queue, (priority, self._counter, item))
+            self._flush_batch += 1
         other_queue._flush_batch = 0
         while other_queue._queue:
             priority, _count, item = other_queue._queue.popleft()
